@@ -1321,6 +1321,14 @@ class MultiAgentRLAlgorithm(EvolvableAlgorithm, ABC):
         """
         return agent_id.rsplit("_", 1)[0] if isinstance(agent_id, str) else agent_id
 
+    def _agent_position(self, agent_id: str) -> int:
+        """Position of an agent in ``self.agent_ids`` (unknown IDs sort last)."""
+        return (
+            self.agent_ids.index(agent_id)
+            if agent_id in self.agent_ids
+            else len(self.agent_ids)
+        )
+
     def preprocess_observation(
         self, observation: ObservationType
     ) -> Dict[str, TorchObsType]:
@@ -1333,7 +1341,11 @@ class MultiAgentRLAlgorithm(EvolvableAlgorithm, ABC):
         :rtype: torch.Tensor[float] or dict[str, torch.Tensor[float]] or Tuple[torch.Tensor[float], ...]
         """
         preprocessed = {}
-        for agent_id, obs in observation.items():
+        # Pair observations with agents by ID (in the order of self.agent_ids), not by
+        # the iteration order of the dictionary that was passed in
+        keys = list(observation.keys())
+        for agent_id in sorted(keys, key=self._agent_position):
+            obs = observation[agent_id]
             preprocessed[agent_id] = preprocess_observation(
                 observation=obs,
                 observation_space=self.observation_space.get(agent_id),
